@@ -507,7 +507,8 @@ fn gen_case(rng: &mut ChaCha20Rng, class: &str, trusted: &ManifestSigner, other:
                 anc_entries.retain(|e| e.path() != p);
                 anc_entries.push(Ent::file("payload.bin", &anc_files[&p]));
                 anc_entries.push(Ent::Symlink { path: p.clone(), target: format!("{up}payload.bin") });
-                anc_valid = false;
+                // the other listed files are served unchanged: they stay vouched; the symlink itself can never be
+                // "a regular file with the signed hash", so it is flagged if it is restored
                 note = format!("listed file `{p}` shipped as a symlink to an unlisted payload with the signed content");
             }
             "anc_dotdot_absolute" => {
@@ -734,7 +735,7 @@ fn run_case(
     work: &Path,
     ident: Value,
     sample_it: bool,
-) {
+) -> Option<(PathBuf, BTreeMap<String, Entry>)> {
     let _ = common::force_remove(work);
     let target = work.join("target");
     let srv = work.join("srv");
@@ -789,10 +790,14 @@ fn run_case(
         Err(p) => {
             m.count("client_panicked");
             m.inconclusive(&format!("client panicked in case class {}: {}", c.class, common::short(&p, 200)));
-            return;
+            return None;
         }
     };
     m.eval();
+    if outcome.is_err() {
+        // a failed download aborts its sibling tasks; their blocking unpack threads finish on their own
+        std::thread::sleep(std::time::Duration::from_millis(25));
+    }
     let after = common::list_tree(&target);
     let ok = outcome.is_ok();
     m.count(&format!("class.{}.{}", c.class, if ok { "ok" } else { "err" }));
@@ -862,7 +867,10 @@ fn run_case(
             flagged.push((s.to_string_lossy().to_string(), "C19 archive entry written outside the target directory"));
         }
     }
-    m.count_n("directories_created_beyond_expected_not_judged", extra_dirs.saturating_sub(3));
+    m.count_n("directories_created_not_judged", extra_dirs);
+    if flagged.iter().any(|(p, _)| p.starts_with("ancillary-") && after.get(p).map(|e| e.kind != Kind::Dir).unwrap_or(false)) {
+        m.count("ancillary_temp_dir_left_behind.with_unverified_files_inside");
+    }
     if flagged.is_empty() {
         m.count(&format!("clean.{}", c.class));
     }
@@ -922,6 +930,7 @@ fn run_case(
             "new_or_changed_paths": after.iter().filter(|(p, e)| before.get(*p) != Some(*e) && e.kind != Kind::Dir).map(|(p, _)| p.clone()).collect::<Vec<_>>(),
             "flagged": flagged}));
     }
+    Some((target, after))
 }
 
 pub fn run_shard(shard: u64, m: &mut Monitor, per_shard: usize, only: Option<usize>) {
@@ -951,6 +960,7 @@ pub fn run_shard(shard: u64, m: &mut Monitor, per_shard: usize, only: Option<usi
         plan.extend(round);
     }
     plan.truncate(per_shard);
+    let mut previous: Option<(PathBuf, BTreeMap<String, Entry>)> = None;
     for (ci, class) in plan.iter().enumerate() {
         if let Some(o) = only {
             if o != ci {
@@ -958,14 +968,25 @@ pub fn run_shard(shard: u64, m: &mut Monitor, per_shard: usize, only: Option<usi
             }
         }
         let mut crng = m.rng("c19-case", (shard << 32) | ci as u64);
-        let work = base.join("work");
+        // one directory per case: unpack threads of a failed download may outlive the call and must not
+        // write into the next case's directory
+        let work = base.join(format!("work-{ci}"));
+        if let Some((prev_target, prev_after)) = previous.take() {
+            let now = common::list_tree(&prev_target);
+            if now != prev_after {
+                m.count("late_writes.target_directory_changed_after_download_unpack_returned");
+            }
+            if let Some(parent) = prev_target.parent() {
+                let _ = common::force_remove(parent);
+            }
+        }
         let Some(case) = gen_case(&mut crng, class, &trusted, &other, &work) else {
             m.count(&format!("not_applicable.{class}"));
             continue;
         };
         let ident = json!({"seed": m.seed, "shard": shard, "case": ci, "rerun": format!("mon-client C19 --only {shard}:{ci}")});
         let sample_it = ci % 17 == (shard as usize % 17);
-        run_case(&rt, &dbk, &dbn, m, &case, &work, ident, sample_it);
+        previous = run_case(&rt, &dbk, &dbn, m, &case, &work, ident, sample_it);
     }
     drop((dbk, dbn, client_k, client_n));
     drop(rt);
